@@ -523,6 +523,8 @@ type loopInfo struct {
 }
 
 // assignedIn collects local variables assigned inside the nodes.
+var visiting = map[types.Object]bool{}
+
 func (x *Exec) assignedIn(nodes ...ast.Node) map[types.Object]bool {
 	out := map[types.Object]bool{}
 	info := x.info()
@@ -586,8 +588,23 @@ func (x *Exec) assignedIn(nodes ...ast.Node) map[types.Object]bool {
 					mark(s.Value)
 				}
 			case *ast.FuncLit:
-				// closures assigned in loop: their captured writes are
-				// found when the literal body is inspected (continue)
+				// assignments inside a literal happen when it is called; calls
+				// of local literals are accounted for where they occur
+				return false
+			case *ast.CallExpr:
+				if id, ok := s.Fun.(*ast.Ident); ok {
+					if o := info.ObjectOf(id); o != nil && !visiting[o] {
+						if lit := x.closureLitOf(o); lit != nil {
+							visiting[o] = true
+							for k, v := range x.assignedIn(lit.Body) {
+								if v || !out[k] {
+									out[k] = v || out[k]
+								}
+							}
+							delete(visiting, o)
+						}
+					}
+				}
 			}
 			return true
 		})
